@@ -26,6 +26,11 @@ Definition rm_class (c : config) (now : Z) (n : node) : N :=
 Definition rm_answers (l : list (N * (bytes * N))) (n : node) : bool :=
   existsb (fun e => N.eqb (fst e) (n_id n) && key_eqb (snd e) (addr_key (n_addr n))) l.
 
+(* [same]: entries whose host answers pings under the id the entry is stored with; [others]: entries whose host
+   answers under another id; everybody else is silent *)
+Definition rm_ping_outcome (same others : list (N * (bytes * N))) (n : node) : ping_outcome :=
+  if rm_answers same n then PSameId else if rm_answers others n then POtherId else PSilent.
+
 (* the bootstrap that precedes the first pass: every table entry the traversal's node filter lets
    through is asked (nobody answers find_node, so the closest set never fills) *)
 Definition rm_boot (c : config) (nodes : list node) : list node :=
@@ -46,9 +51,9 @@ Definition rm_boot_effect (c : config) (now : Z) (fans : list (N * (bytes * N)))
 Definition rm_boot_asked (c : config) (booted : bool) (nodes : list node) : list node :=
   if booted then [] else rm_boot c nodes.
 
-Definition rm_pass (c : config) (now : Z) (booted : bool) (answering fans : list (N * (bytes * N))) (nodes : list node)
+Definition rm_pass (c : config) (now : Z) (booted : bool) (answering others fans : list (N * (bytes * N))) (nodes : list node)
   : list phase * list node :=
-  pass id_secure_impl c now (rm_answers answering) (refresh_answering id_secure_impl c now (rm_answers fans))
+  pass id_secure_impl c now (rm_ping_outcome answering others) (refresh_answering id_secure_impl c now (rm_answers fans))
        (if booted then nodes else rm_boot_effect c now fans nodes).
 
 (* tag 0 ping / 1 refresh / 2 break / 3 done *)
